@@ -18,6 +18,7 @@ package main
 
 import (
 	"fmt"
+	"sort"
 	"strings"
 )
 
@@ -42,6 +43,34 @@ func (h *c12RefHook) auth() string {
 		return "-"
 	}
 	return h.Name + "=" + h.Value
+}
+
+// credentials is the authorisation-relevant part of an observed POST: the Authorization header, every header whose
+// name some webhook of this run was registered with, and every header (under whatever name) whose value contains a
+// configured credential. Other headers the client may add (tracing, idempotency keys, versions) are not the
+// property's business and are left out — the correspondence with the model still sees them.
+func (r *c12Ref) credentials(k c12Call) string {
+	var hs []string
+	for n, v := range k.Headers {
+		switch n {
+		case "", "Content-Type", "User-Agent", "Accept-Encoding", "Content-Length", "Host":
+			continue
+		}
+		rel := strings.EqualFold(n, "Authorization")
+		for _, h := range r.hooks {
+			if h.Name != "" && (strings.EqualFold(h.Name, n) || (h.Value != "" && strings.Contains(v, strings.TrimPrefix(h.Value, "Bearer ")) && strings.TrimPrefix(h.Value, "Bearer ") != "")) {
+				rel = true
+			}
+		}
+		if rel {
+			hs = append(hs, n+"="+v)
+		}
+	}
+	sort.Strings(hs)
+	if len(hs) == 0 {
+		return "-"
+	}
+	return strings.Join(hs, "&")
 }
 
 type c12Ref struct {
@@ -184,7 +213,7 @@ func (r *c12Ref) check(line string, obs c12Obs) []c12Fail {
 				fs = append(fs, c12Fail{Sig: "c12-other:post-count", What: "an active webhook did not receive exactly one POST for the event", Expected: sym + ": one POST", Observed: c12Calls(ps)})
 			default:
 				p := ps[0]
-				if p.auth() != h.auth() {
+				if r.credentials(p) != h.auth() {
 					fs = append(fs, c12Fail{Sig: "c12-other:header", What: "the POST does not carry exactly the configured authorisation header", Expected: sym + "(" + h.auth() + ")", Observed: p.canon()})
 				}
 				wantBody := fmt.Sprintf(`{"operation":"ADD","seq":%d}`, r.k)
